@@ -319,6 +319,26 @@ def h_ref(ctx, name='sma', n=7, period=3, source_type='close'):
             for i in range((first or 0) + 1, n):
                 ctx.prove(near(got[i] * period, got[i - 1] * (period - 1) + tr[i]), 'C15:recurrence-step', dict(info, i=i))
             ctx.event('reference-compared')
+    elif name == 'mfi':
+        got = _call('mfi', m, period=period)
+        tp = [(r[3] + r[4] + r[2]) / 3 for r in rows]
+        raw = [tp[i] * rows[i][5] for i in range(n)]
+        if ctx.prove(len(got) == n, lab + ':length', info):
+            for i in range(period, n):  # from `period` on the window holds `period` real price changes
+                pos = 0.0
+                neg = 0.0
+                for j in range(i - period + 1, i + 1):
+                    up = tp[j] > tp[j - 1]
+                    dn = tp[j] < tp[j - 1]
+                    pos = pos + sx.ite(up, raw[j], 0.0)
+                    neg = neg + sx.ite(dn, raw[j], 0.0)
+                g = got[i]
+                if indh.is_nan(g):
+                    ctx.prove(Not(pos + neg > 0), lab, dict(info, i=i, kind='nan where a value is defined'))
+                else:
+                    # 100 - 100/(1 + pos/neg)  <=>  g*(pos+neg) == 100*pos   (neg == 0: 100)
+                    ctx.prove(Implies(neg > 0, near(g * (pos + neg), 100 * pos, 1e-3)), lab, dict(info, i=i))
+            ctx.event('reference-compared')
     elif name in ('smma', 'wilders'):
         got = _call(name, m, period=period, source_type=source_type)
         if ctx.prove(len(got) == n, lab + ':length', info):
@@ -422,7 +442,7 @@ def _jobs(tier):
     opts = {'max_paths': 1500 if tier == 'quick' else 20000, 'max_job_seconds': 120 if tier == 'quick' else 1200, 'max_decisions': 4000, 'stop_on_error': True,
             'max_path_seconds': 60, 'prove_timeout_ms': 20000, 'feas_timeout_ms': 5000, 'nlsat_fallback': True}
     refs = ['sma', 'ema', 'wma', 'stddev', 'var', 'rsi', 'roc', 'mom', 'willr', 'obv', 'trange', 'donchian', 'macd', 'typprice', 'medprice', 'wclprice',
-            'avgprice', 'bollinger_bands', 'atr', 'smma', 'wilders']
+            'avgprice', 'bollinger_bands', 'atr', 'smma', 'wilders', 'mfi']
     periods = (2, 3) if tier == 'quick' else (2, 3, 4, 5)
     for nm in refs:
         for p in periods:
